@@ -31,6 +31,7 @@ type Engine struct {
 
 	compSort     map[string]string // heap component -> sort
 	compElemInv  map[string]func(term string) string
+	compAllocInv map[string]func(term, alloc string) string
 	globalsDecl  map[string]string // symbol -> declaration text emitted when mentioned
 	globalsOrder []string
 	globalAx     map[string][]string // symbol -> assumptions emitted with it
@@ -56,7 +57,7 @@ func newEngine(repo, specDir string) (*Engine, error) {
 		gaddr: map[*types.Var]string{}, loopEnumSort: map[string]string{},
 		touchCache: map[*ssa.Function]map[string]bool{}, touchBusy: map[*ssa.Function]bool{},
 		spkg: map[string]*ssa.Package{}, ppkg: map[string]*packages.Package{},
-		compElemInv: map[string]func(string) string{}, assumptions: map[string]bool{}}
+		compElemInv: map[string]func(string) string{}, compAllocInv: map[string]func(string, string) string{}, assumptions: map[string]bool{}}
 	cfg := &packages.Config{Mode: packages.LoadAllSyntax, Dir: repo, BuildFlags: []string{"-tags=verif"}, Tests: false,
 		Env: append(os.Environ(), "GOFLAGS=-mod=mod", "GOPROXY=off", "GOSUMDB=off", "GOTOOLCHAIN=local")}
 	pkgs, err := packages.Load(cfg, "./...")
@@ -201,7 +202,21 @@ func (eng *Engine) regMap(m *types.Map) {
 
 func (eng *Engine) regPtr(elem types.Type) string {
 	comp := ptrHeap(elem)
-	eng.regComp(comp, "(Array Int "+eng.sorts.sortOf(elem)+")")
+	if _, ok := eng.compSort[comp]; !ok {
+		eng.regComp(comp, "(Array Int "+eng.sorts.sortOf(elem)+")")
+		if inv := eng.sorts.typeInv(elem, "(select @H p!)"); inv != "" {
+			eng.compElemInv[comp] = func(h string) string {
+				return "(forall ((p! Int)) (! " + strings.ReplaceAll(inv, "@H", h) + " :pattern ((select " + h + " p!))))"
+			}
+			eng.globalAx[comp+"_0"] = append(eng.globalAx[comp+"_0"], eng.compElemInv[comp](comp+"_0"))
+		}
+		if inv := eng.sorts.allocInv(elem, "(select @H p!)", "@A"); inv != "" {
+			eng.compAllocInv[comp] = func(h, al string) string {
+				return "(forall ((p! Int)) (! " + strings.ReplaceAll(strings.ReplaceAll(inv, "@H", h), "@A", al) + " :pattern ((select " + h + " p!))))"
+			}
+			eng.globalAx[comp+"_0"] = append(eng.globalAx[comp+"_0"], eng.compAllocInv[comp](comp+"_0", "alloc_0"))
+		}
+	}
 	return comp
 }
 
@@ -215,6 +230,12 @@ func (eng *Engine) regSlice(elem types.Type) string {
 				return "(forall ((a! Int) (i! Int)) (! " + strings.ReplaceAll(inv, "@H", h) + " :pattern ((select (select " + h + " a!) i!))))"
 			}
 			eng.globalAx[comp+"_0"] = append(eng.globalAx[comp+"_0"], eng.compElemInv[comp](comp+"_0"))
+		}
+		if inv := eng.sorts.allocInv(elem, "(select (select @H a!) i!)", "@A"); inv != "" {
+			eng.compAllocInv[comp] = func(h, al string) string {
+				return "(forall ((a! Int) (i! Int)) (! " + strings.ReplaceAll(strings.ReplaceAll(inv, "@H", h), "@A", al) + " :pattern ((select (select " + h + " a!) i!))))"
+			}
+			eng.globalAx[comp+"_0"] = append(eng.globalAx[comp+"_0"], eng.compAllocInv[comp](comp+"_0", "alloc_0"))
 		}
 	}
 	return comp
@@ -242,6 +263,9 @@ func (eng *Engine) heapHavoc(st *State, comp string) string {
 	st.heap[comp] = n
 	if f, ok := eng.compElemInv[comp]; ok {
 		st.assume(f(n))
+	}
+	if f, ok := eng.compAllocInv[comp]; ok {
+		st.assume(f(n, st.alloc))
 	}
 	return n
 }
